@@ -155,6 +155,9 @@ func (st *State) primitive(f *ssa.Function, args []Val, site ssa.Instruction) (V
 			st.guardCheck(p, false, site, false)
 			tv := st.load(p, false).(TV)
 			tv.Typ = resT()
+			if vc.mode == "B2" {
+				st.nonnil["b2loaded:"+lockKeyOf(p)] = true
+			}
 			if vc.mode == "B2" && st.nonnil["b2added:"+lockKeyOf(p)] && at != "Bool" && at != "Value" {
 				// B2-lite: a counter this path has just changed with an atomic Add is one that other goroutines change the same way;
 				// a Load after the Add no longer tells what this path's own Add did: it returns the known value or an arbitrary other one
@@ -177,6 +180,14 @@ func (st *State) primitive(f *ssa.Function, args []Val, site ssa.Instruction) (V
 			return old, true
 		case "Add":
 			cur := st.load(p, false).(TV).T
+			if vc.mode == "B2" && st.nonnil["b2loaded:"+lockKeyOf(p)] && !st.nonnil["fresh:"+p.Base.S] {
+				// B2-lite: between an earlier Load of this path and this Add other goroutines may have changed the counter: the value the
+				// Add meets (and so the value it returns) is the known one or an arbitrary other one -- a snapshot taken before is stale
+				interf := st.declare("add.interf", SBool)
+				other := st.declare("add.other", SInt)
+				st.assumeRange(other, resT())
+				cur = st.define("add.cur", tIte(interf, other, cur))
+			}
 			nv := st.define("aadd", atomicWrap(tAdd(cur, args[1].(TV).T), at))
 			st.nonnil["rg:"+nv.S] = true
 			st.assumeRange(nv, resT())
@@ -853,6 +864,10 @@ func (vc *VC) runGhostStore(st *State, p PtrV) {
 func (vc *VC) execGhost(st *State, g *ghostStmt, callRes ...Val) {
 	ec := st.evalCtx()
 	names := copyNames(ec.names)
+	// "before call" anchors may name the call's actual arguments: arg0 (the receiver of a method call), arg1, ...
+	for i, a := range st.callArgs {
+		names[fmt.Sprintf("arg%d", i)] = a
+	}
 	if len(callRes) == 1 {
 		names["result"] = callRes[0]
 		names["result0"] = callRes[0]
